@@ -8,7 +8,8 @@ CONFIG = dict(
                "a reply/remote-error completion only comes from the response carrying the id the instance is registered under (first one processed, decoded content), "
                "a timeout only from the expiry scan strictly after issue time + 30000 ms, unknown/late/duplicate responses leave the state untouched, "
                "the table equals issued-minus-removed (notifications and serialisation failures leave nothing), the timer is armed while anything is pending and a scan "
-               "completes everything that is due — for all op lists, callback behaviours, scan orders, wrap bounds, under the explicit id guard (itself derived from a counting bound). "
+               "completes everything that is due (a panicking timeout callback counts as that instance's single completion, aborts the scan and leaves the rest for the next scans, "
+               "each of which removes at least one due entry) — for all op lists, callback behaviours, scan orders, wrap bounds, under the explicit id guard (itself derived from a counting bound). "
                "The model is tied to the Go code on every run by executing both on thousands of generated histories (1-40 outstanding requests, duplicates, late replies, "
                "deadline +-1 ms, nil callbacks, re-entrant callbacks, unserialisable messages, id wrap) and the property predicate is evaluated on the implementation's observations.",
     level_note="Trusted: Lean kernel; the harness/driver line protocol; proto.actor local delivery (FIFO, once); testing/synctest's virtual clock; timer.Mgr's re-arm-after-callback period "
@@ -20,7 +21,8 @@ CONFIG = dict(
     audit="Audit/C01.lean",
     required_theorems=["cb_at_most_once", "cb_is_right_reply", "timeout_only_after_deadline", "late_dup_unknown_dropped",
                        "completed_not_pending", "no_residue", "notify_never_registers", "serialize_failure_leaves_nothing",
-                       "armed_while_pending", "tick_completes_due", "guard_implies_not_collided", "id_guard_by_counting"],
+                       "armed_while_pending", "tick_completes_due", "panic_aborts_scan_only", "scan_removes_one",
+                       "guard_implies_not_collided", "id_guard_by_counting", "d10_witness", "d18_witness"],
     harness_pkg="./c01",
     mode="diff",
     reset_prefix="reset",
@@ -31,13 +33,15 @@ CONFIG = dict(
                      dict(name="enum4", test="TestEnum", timeout=800),
                      dict(name="wrapslow", test="TestWrapByAlloc", timeout=600)],
     },
-    trivial=r"^(ok|nopeer|bad-op)( iss= cb= sent= pend=[0-9,]*)?$",
+    trivial=r"^(ok|nopeer|bad-op)( iss= cb= sent= pend=[0-9,]* pan=)?$",
     rule="op lines from one PRNG (VERIF_SEED), interpreted against a real service.Service (embedded in a NodeService, own run-service goroutine, SmoothFrameMailbox) and a scripted peer service "
          "inside one synctest bubble: cases of 10-80 ops with 1-40 outstanding requests; requests with callback / nil callback / unserialisable message, notifies, callback scripts that issue "
-         "further requests and notifies (nesting <= 3, including synchronous serialisation-failure callbacks); replies ok / empty / error / undecodable to pending, completed (late, duplicate), "
+         "further requests and notifies (nesting <= 3, including synchronous serialisation-failure callbacks) and that panic when run as a timeout completion "
+         "(alone or with several entries due in the same scan, callback and nil-callback ones mixed); replies ok / empty / error / undecodable to pending, completed (late, duplicate), "
          "notify and unknown instances; raw responses for id 0, small, MaxReqId, MaxInt32 and pending ids; clock advances aimed at deadline-1000..deadline+2000 including deadline-1, deadline, "
          "deadline+1 and the scan instants, long advances; allocator preset near MaxReqId (wrap) and at random values; node-level app.Request without a route. "
-         "The order in which one scan runs several timeout callbacks (Go map order) is recorded and fed to the model as its choice. "
+         "The order in which one scan runs several timeout callbacks (Go map order), and which nil-callback entries it had already removed before each of them, "
+         "is recorded and fed to the model as its choice. "
          "A case is non-trivial when something was issued, called back or sent; distinct = distinct (op, observation) pairs",
     trusted_base=[
         "Lean 4.33.0 kernel; axioms of every property theorem audited on each run (allowed: propext, Classical.choice, Quot.sound)",
@@ -47,7 +51,8 @@ CONFIG = dict(
     ],
     assumptions=[
         "the id guard: an id is not re-allocated while an entry stored under it is pending (proved from: fewer than M-1 allocations during any entry's life)",
-        "completion callbacks return and do not panic (a panic inside checkExpired is recovered by timer.Mgr and the callback would run again on the next scan)",
+        "a completion callback invoked by handleResponse returns without panicking (such a panic escalates through the mailbox to the actor supervisor, which restarts "
+        "the requester as a fresh Service: a different regime, kept out of the generator); panics of timeout callbacks (recovered by timer.Mgr) ARE modelled (Op.panic), generated and proved about",
         "all calls into the service happen on its own goroutine (C04); the 1 s timer keeps firing while armed (C14)",
         "a response with an unknown type name is outside the model (protoactor's Deserialize dereferences a nil message type)",
     ],
